@@ -17,6 +17,7 @@ func relayProfileC06(tier string) RelayProfile {
 		Republish:      0,
 		HeaderChange:   0.1,
 		TsWeird:        0.15,
+		NalKinds:       0.3,
 		BigUnits:       0.25,
 		ZeroLen:        0.0,
 		ShapeAudioOnly: 0.1,
@@ -298,6 +299,11 @@ func genC06Plan(r *sim.Rng, tier string) RelayPlan {
 			p.VideoCodec = media.CodecHEVC
 		}
 	}
+	if len(pl.Pubs) > 0 && r.Bool(0.12) {
+		pl.PullIngest = genPullIngest(r, len(pl.Pubs[0].Units))
+		pl.Pubs = pl.Pubs[:1]
+		pl.Cons, pl.Ops = nil, nil
+	}
 	return pl
 }
 
@@ -309,6 +315,10 @@ func init() {
 		Run: func(k *sim.Kernel, plan json.RawMessage) {
 			var pl RelayPlan
 			fromJSON(plan, &pl)
+			if pl.PullIngest != nil {
+				runC06Pull(k, pl)
+				return
+			}
 			rr := ExecRelay(k, pl)
 			CheckC06(k, rr)
 		},
